@@ -268,6 +268,16 @@ def stub_net(outcome_of):
             return _Resp(200, b"", fail_read=ConnectionResetError(104, "stub: connection reset by peer"))
         if kind == "notutf8":
             return _Resp(200, b"\xff\xfe licence \xe9 text")
+        if kind == "disconnected":
+            import http.client
+
+            raise http.client.RemoteDisconnected("stub: remote end closed connection without response")
+        if kind == "incomplete":
+            import http.client
+
+            return _Resp(200, b"", fail_read=http.client.IncompleteRead(b"half of the te", 4000))
+        if kind == "timeout":
+            raise TimeoutError("stub: timed out")
         raise AssertionError(o)
 
     urllib.request.urlopen = fake
